@@ -4,16 +4,22 @@ import AslModel.Spec.Robust
 /-! Driver mode `c03`: one tool run per request line.
 
 request : `<tool> <g> <slack> <outcome> <filehex>`
-  tool    = plist | pbind | pbindf | p2bin | p2hex | p2bina | p2hexa   (`a` = automatic range: MeasureFile pass first)
-  g       = 1 when the probed binaries refuse granularity 0 (guard present), else 0
+  tool    = plist | pbind | pbindf | pbindq | p2bin | p2hex | p2bina | p2hexa   (`a` = automatic range: MeasureFile pass first)
+  g       = probed environment / behaviour flags as a number: +1 the binaries refuse granularity 0 (guard present),
+            +2 `errno` is stale when the tool reads the magic (a 1-byte file ends it with status 2),
+            +4 `errno` is stale in the record loop of the first pass over the file (a file that consists of the magic
+            ends it with status 2)
   slack   = bytes the tool's processing pass wants behind a data record (probed on the real binary each run:
             1 = "the `$00` record must follow", 2 = the off-by-one of the pinned tree)
-  outcome = exit status as a number | `sig<n>` | `timeout` | `san`
-answer  : `model=<ok|err kind|fpe> spec=<wf|mal> doc=<0|1> specok=<0|1> corr=<0|1|skip> exact=<0|1> cons=<0|1>
+  outcome = exit status as a number, optionally `/<msg>` with the format-error text the tool printed
+            (`ih` invalid header, `irh` invalid record header, `irl` invalid record length, `eof` unexpected end of file)
+            | `sig<n>` | `timeout` | `san`
+answer  : `model=<ok|err kind|fpe> spec=<wf|mal> doc=<0|1> specok=<0|1> corr=<0|1> exact=<0|1> cons=<0|1>
            nrec= gran0= maxseg= reloc= unkfam= reserved= lo= hi= crlen= lastdata=`
  * specok – the outcome is a documented status *and* lies in the set the SPEC allows for this file (C)
- * corr   – the outcome is what the MODEL of this tool's reader predicts (B); `skip` where the C code's
-            behaviour is undefined (segment index out of range, unchecked relocation strings)
+ * corr   – the outcome is what the MODEL of this tool's reader predicts (B): accepted -> 0, every error -> 3 with
+            the message of the error class (where the class determines it).  There is no input on which the model
+            declines to predict: a signal or a time-out is never "as predicted".
  * exact  – accepted record list re-serialises to the input (run-time instance of `C03_reader_exact`)
  * cons   – model and SPEC reader agree as `C03_reader_accepts_wellformed/_rejects_malformed` say
 -/
@@ -25,31 +31,50 @@ def errName : ToolErr → String
   | .badLength => "badLength"
   | .badFamily => "badFamily"
   | .badGran => "badGran"
-  | .shortRead => "shortRead"
-  | .badSeek => "badSeek"
+  | .badSeg => "badSeg"
+  | .badReloc => "badReloc"
+  | .eof => "eof"
+  | .staleHeader => "staleHeader"
+  | .io => "io"
   | .fuel => "fuel"
 
 def parseOutcome (s : String) : Option Outcome :=
   if s = "timeout" then some .timeout
   else if s = "san" then some .sanitizer
   else if s.startsWith "sig" then (s.drop 3).toString.toNat?.map Outcome.signal
-  else s.toNat?.map Outcome.exit
+  else ((s.splitOn "/").headD "").toNat?.map Outcome.exit
+
+/-- the format-error text behind the status, if the harness recognised one -/
+def parseMsg (s : String) : Option Msg :=
+  match s.splitOn "/" with
+  | [_, "ih"] => some .invHeader
+  | [_, "irh"] => some .invRecordHeader
+  | [_, "irl"] => some .invRecordLen
+  | [_, "eof"] => some .unexpectedEof
+  | _ => none
 
 structure ToolSel where
   cfg : Cfg
   measure : Option Cfg
   plistStyle : Bool
 
-def selTool (t : String) (g : Bool) (sl : Nat) : Option ToolSel :=
+def selTool (t : String) (flags : Nat) (sl : Nat) : Option ToolSel :=
+  let g := flags % 2 == 1
+  let em := (flags / 2) % 2 == 1
+  let el := (flags / 4) % 2 == 1
   match t with
-  | "plist" => some ⟨{ cfgPlist g with slack := sl }, none, true⟩
-  | "pbind" => some ⟨{ cfgPbind with slack := sl }, none, false⟩
+  | "plist" => some ⟨{ cfgPlist g with slack := sl, errnoMagic := em, errnoLoop := el }, none, true⟩
+  | "pbind" => some ⟨{ cfgPbind with slack := sl, errnoMagic := em, errnoLoop := el }, none, false⟩
   -- pbind -f <family no record has>: the filter decides what is copied, not what is validated
-  | "pbindf" => some ⟨{ cfgPbind with slack := sl }, none, false⟩
-  | "p2bin" => some ⟨{ cfgP2bin g with slack := sl }, none, false⟩
-  | "p2hex" => some ⟨{ cfgP2hex g with slack := sl }, none, false⟩
-  | "p2bina" => some ⟨{ cfgP2bin g with slack := sl }, some (cfgMeasureBin g), false⟩
-  | "p2hexa" => some ⟨{ cfgP2hex g with slack := sl }, some (cfgMeasureHex g), false⟩
+  | "pbindf" => some ⟨{ cfgPbind with slack := sl, errnoMagic := em, errnoLoop := el }, none, false⟩
+  -- pbind -q: the same reader; only the probed `errno` state differs (nothing resets it in quiet mode)
+  | "pbindq" => some ⟨{ cfgPbind with slack := sl, errnoMagic := em, errnoLoop := el }, none, false⟩
+  | "p2bin" => some ⟨{ cfgP2bin g with slack := sl, errnoMagic := em, errnoLoop := el }, none, false⟩
+  | "p2hex" => some ⟨{ cfgP2hex g with slack := sl, errnoMagic := em, errnoLoop := el }, none, false⟩
+  -- measuring pass first (it sees the probed `errno` state); the processing pass only runs on a file the measuring
+  -- pass accepted and resets `errno` behind the magic
+  | "p2bina" => some ⟨{ cfgP2bin g with slack := sl }, some { cfgMeasureBin g with errnoMagic := em, errnoLoop := el }, false⟩
+  | "p2hexa" => some ⟨{ cfgP2hex g with slack := sl }, some { cfgMeasureHex g with errnoMagic := em, errnoLoop := el }, false⟩
   | _ => none
 
 /-- the records a tool divides for: plist all; p2bin `Segment == ValidSegment` (CODE); p2hex CODE, its
@@ -72,7 +97,7 @@ def lastIsData : List Item → Bool
 def handle (line : String) : String :=
   match words line with
   | [t, g, sl, oc, fh] =>
-    match selTool t (g == "1") (sl.toNat?.getD 1), parseOutcome oc, unhex fh with
+    match selTool t (g.toNat?.getD 0) (sl.toNat?.getD 1), parseOutcome oc, unhex fh with
     | some sel, some outcome, some file =>
       let auto := sel.measure.isSome
       -- the model: measuring pass (if any), then the processing pass
@@ -101,6 +126,7 @@ def handle (line : String) : String :=
            | .error _ => ("fpe", rs, true)
            | .ok _ => (if measFault then "fpe" else "ok", rs, measFault))
         | .error e => (errName e, [], false)
+      let modelMsg : Option Msg := match mres with | .error e => e.msg | .ok _ => none
       let modelOk := modelS == "ok"
       let accepted := modelOk || fpe
       let doc := accepted && (toItems rs).isSome
@@ -128,19 +154,24 @@ def handle (line : String) : String :=
         (if wf then allowedFor file lenient else if accepted then [0, 2, 3] else allowedFor file false)
           ++ (if auto && (wf || accepted) then [1] else [])
       let specok := documented toolStatuses outcome && (match outcome with | .exit s => allowedS.contains s | _ => false)
-      -- undefined behaviour of the C code the model does not predict
-      let ub := (accepted && ms ≥ AslModel.Generated.segCount && (t == "plist" || t == "p2hex" || t == "p2hexa"))
-                || (accepted && rl && t == "plist")
+      -- every error class of the reader is a FormatError call: status 3, or ChkIO under a stale errno: 2 (`ToolErr.status`)
+      -- automatic range: between the measuring pass and the processing pass the tool ends with status 1 when the measured
+      -- window is empty ("automatic range setting failed") - possible whenever the measuring pass accepted the file
+      let measOk : Bool :=
+        match sel.measure with
+        | some mc => (match readFile mc file with | .ok _ => !measFault | .error _ => false)
+        | none => false
       let allowedM : List Nat :=
         if modelOk then (if auto then [0, 1] else [0])
-        else if modelS == "shortRead" then [2, 3]
-        else if modelS == "badSeek" then [2]
-        else [3]
+        else [exitStatus mres] ++ (if measOk then [1] else [])
+      let msgOk : Bool :=
+        match modelMsg, parseMsg oc with
+        | some m, some m' => m == m'
+        | _, _ => true
       let corr : String :=
-        if ub then "skip"
-        else if fpe then (match outcome with | .signal 8 => "1" | .sanitizer => "1" | _ => "0")
+        if fpe then (match outcome with | .signal 8 => "1" | .sanitizer => "1" | _ => "0")
         else match outcome with
-          | .exit s => b01 (allowedM.contains s)
+          | .exit s => b01 (allowedM.contains s && (modelOk || msgOk))
           | _ => "0"
       let exact := !accepted || fileBytes rs == file
       -- run-time instances of the theorems relating model and SPEC reader
